@@ -10,10 +10,11 @@ pub mod c17;
 pub mod c18;
 pub mod c19;
 pub mod dnssec;
+pub mod front;
 pub mod tsig_ref;
 pub mod upd_model;
 pub mod update;
 
 pub fn all() -> Vec<CheckDef> {
-    vec![c06::def(), c07::def(), c0809::def_c08(), c0809::def_c09(), update::def_c12(), c13::def(), update::def_c14(), c15::def(), c16::def(), c17::def(), c18::def(), c19::def()]
+    vec![c06::def(), c07::def(), c0809::def_c08(), c0809::def_c09(), update::def_c12(), c13::def(), update::def_c14(), c15::def(), c16::def(), c17::def(), c18::def(), c19::def(), front::def_c11(), front::def_c03()]
 }
